@@ -394,6 +394,58 @@ def check_join_drain(ctx):
         ctx.check('R5', 'RemoteWorker._run_backend: the socket the result is sent on is not closed abortively', not abortive, 'RemoteWorker._run_backend', f'abortive-close:{norm(c)}',
                   f'`{norm(c)}` makes the close after the final send abortive: data still in the send buffer is discarded and the peer gets a reset - results larger than what the '
                   'receiver has already read are lost (has_error True, error None) on any link slower than loopback', where=loc(rb, c))
+    # ... and the policy in force when the result is sent is not an inherited abortive one: SO_LINGER belongs to the connection, an accepted socket
+    # inherits it from the listening socket, and the backend's socket is a copy of the accepted one.  Effective policy = the last explicit setting on
+    # the chain listener -> accepted socket (accept loop) -> backend socket (before the result is sent).
+    def linger_of(call):
+        en = call.args[1] if len(call.args) > 1 else None
+        to = call.args[2] if len(call.args) > 2 else None
+        if isinstance(en, ast.Constant) and not en.value:
+            return 'off'
+        if isinstance(en, ast.Constant) and en.value and isinstance(to, ast.Constant):
+            return 'abortive' if to.value == 0 else 'graceful'
+        return 'unknown'
+    RS = P.cls('RemoteServer')
+    policy, chain = 'off', []
+    init_s = RS.methods['__init__']
+    run_s = RS.methods['run']
+    ctx.used(init_s, run_s)
+    listeners = []
+    for mf in RS.methods.values():
+        listening = {receiver(c) for c in calls_in(mf.node) if last_attr(c) == 'listen'}
+        for c in calls_in(mf.node):
+            if last_attr(c) == 'set_linger' and c.args and norm(c.args[0]) in listening:
+                listeners.append(c)
+                ctx.used(mf)
+    if listeners:
+        policy = linger_of(listeners[-1])
+        chain.append(f'listener:{policy}')
+    gsr = ctx.an.cfg(run_s, RS)
+    acc = [n for n in gsr.nodes if n.stmt is not None and n.part in ('store', 'post') and any(last_attr(c) == 'accept' for c in n.calls())]
+    cli_vars = [t.elts[0].id for n in acc if isinstance(n.stmt, ast.Assign) and isinstance(n.stmt.targets[0], ast.Tuple) for t in [n.stmt.targets[0]] if isinstance(t.elts[0], ast.Name)]
+    if cli_vars:
+        cv = cli_vars[0]
+        sets = [n for n in gsr.nodes if n.stmt is not None and n.part == 'post' and any(last_attr(c) == 'set_linger' and c.args and is_name(c.args[0], cv) for c in n.calls())]
+        uses = [n for n in gsr.nodes if n.stmt is not None and n.part == 'eval' and any(last_attr(c) in ('recv_msg', 'call') and any(is_name(a, cv) for a in c.args) for c in n.calls())
+                and not any(last_attr(c) == 'set_linger' for c in n.calls())]
+        sid = {n.id for n in sets}
+        # every use of the accepted socket that can lead to a worker is reached only through the reset
+        if sets and uses and gsr.find_path(acc, lambda n: n in uses, edge_ok=lambda e: is_flow(e) and e.kind != 'exc', node_ok=lambda n: n.id not in sid) is None:
+            policy = linger_of([c for c in sets[-1].calls() if last_attr(c) == 'set_linger'][0])
+            chain.append(f'accepted:{policy}')
+    grb = ctx.an.cfg(rb, P.cls('RemoteWorker'))
+    bsets = [n for n in grb.nodes if n.stmt is not None and n.part == 'post' and any(last_attr(c) == 'set_linger' and c.args and norm(c.args[0]) == 'self._socket' for c in n.calls())]
+    sends = [n for n in grb.nodes if n.stmt is not None and n.part == 'eval' and any(last_attr(c) == 'send_msg' and c.args and norm(c.args[0]) == 'self._socket' for c in n.calls())]
+    bid = {n.id for n in bsets}
+    if bsets and sends and grb.find_path([grb.entry], lambda n: n in sends, edge_ok=lambda e: is_flow(e) and e.kind != 'exc', node_ok=lambda n: n.id not in bid) is None:
+        policy = linger_of([c for c in bsets[-1].calls() if last_attr(c) == 'set_linger'][0])
+        chain.append(f'backend:{policy}')
+    ctx.sample({'rule': 'C02.R5', 'linger_policy_chain': chain, 'effective_when_the_result_is_sent': policy})
+    ctx.check('R5', 'the connection the result travels on is not in abortive-close mode when the backend sends and closes', policy in ('off', 'graceful'), 'RemoteWorker._run_backend',
+              f'result-connection-linger:{"->".join(chain) or "default"}',
+              f'the effective SO_LINGER policy of the data connection when the result is sent is `{policy}` ({" -> ".join(chain) or "never set"}): an accepted socket inherits the listener\'s '
+              'linger (on, 0), and unless the accept loop or the backend overrides it the last close resets the connection and discards what the parent has not read yet - '
+              'a large result is lost (has_error True, error None) for the remote kind only', where=loc(rb, rb.node))
     # remote kinds: the data socket is read concurrently by the frontend thread
     RW = P.cls('RemoteWorker')
     st = RW.methods['_start']
